@@ -138,7 +138,7 @@ def oracle_history(rep, rnd, length, stats):
                 out2 = w.apply(home)
                 ops.append(home)
                 stats['reuse'] += 1
-                if out2 != 'ok' and not (home[0] == 'assignFit' and out2 == 'ok'):
+                if out2 != 'ok':
                     rep.violate('item %d rejected by %s cannot be used afterwards: %s -> %s' % (v, H.World.line(op), H.World.line(home), out2),
                                 {'history': [H.World.line(o) for o in ops]})
         rep.case(sig=(tuple(ops[-3:]), out), kind=None)
@@ -158,11 +158,11 @@ def correspondence(ctx):
     H.random_histories(rep, ctx.rnd, ctx.n(100, 2000), 60, 0.5, 'C06.random-history')
 
 
-def oracle(ctx, scale=1):
+def oracle(ctx):
     rep = ctx.report
     rnd = ctx.sub_rnd('oracle')
     stats = {'raising': 0, 'reuse': 0}
-    for h in range(ctx.n(50, 800) * scale):
+    for h in range(ctx.n(50, 800)):
         oracle_history(rep, rnd, 60, stats)
         if rep.violations:
             break
